@@ -507,9 +507,13 @@ class CombinedCategoricalDissimilarity(AbstractDissimilarity):
         if pos_dissim is None:
             pos_dissim = PositionalSporadicDissimilarity(delta_empty)
         if cat_dissim is None:
-            cat_dissim = AbsoluteCategoricalDissimilarity()
+            cat_dissim = AbsoluteCategoricalDissimilarity(delta_empty)
 
-        cat_dissim.delta_empty = delta_empty
+        # Both components use the delta_empty of the combined dissimilarity. Their compiled forms captured
+        # their own value when they were built, so they are compiled again.
+        for component in (pos_dissim, cat_dissim):
+            component.delta_empty = np.float32(delta_empty)
+            component.d_mat = component.compile_d_mat()
         self.positional_dissim: AbstractDissimilarity = pos_dissim
         self.categorical_dissim: CategoricalDissimilarity = cat_dissim
         self.alpha = alpha
